@@ -194,6 +194,36 @@ theorem spPreorder_perm (A : Pat) (p : Array Nat) (sym : Bool) (hp : isPerm A.n 
         exact ⟨this, hlt _ e2⟩
 
 
+/-- **sp_preorder, postordered tree.**  Unless SymmetricMode, in the returned tree the descendants of every
+vertex `v` are exactly the indices of a block `lo..v`. -/
+theorem spPreorder_subtrees (A : Pat) (p : Array Nat) (hp : isPerm A.n p = true) :
+    ∀ v < A.n, ∃ lo, ∀ u < A.n, Desc A.n (spPreorder A p false).etree u v ↔ lo ≤ u ∧ u ≤ v := by
+  obtain ⟨_, hperm, hroot, _, _, _, hrel, _⟩ := spPreorder_perm A p false hp
+  obtain ⟨_, hheap⟩ := coletree_heap A.m A.n (permView A p).col
+  have hpo : postOf A p false = treePostorder A.n (coletree A.m A.n (permView A p).col) := by
+    simp [postOf]
+  rw [hpo] at hperm hroot hrel
+  obtain ⟨_, hqlt, _, hqsurj⟩ := (isPerm_iff A.n _).mp hperm
+  have hlt : ∀ j < A.n, (treePostorder A.n (coletree A.m A.n (permView A p).col)).getD j 0 < A.n :=
+    fun j hj => by have := hqlt j hj; rwa [firstN_getD _ _ _ hj] at this
+  intro v hv
+  obtain ⟨j, hj, hjv⟩ := hqsurj v hv
+  rw [firstN_getD _ _ _ hj] at hjv
+  obtain ⟨lo, hlo⟩ := post_subtree hheap j (Nat.le_of_lt hj)
+  refine ⟨lo, fun u hu => ?_⟩
+  obtain ⟨i, hi, hiu⟩ := hqsurj u hu
+  rw [firstN_getD _ _ _ hi] at hiu
+  rw [← hiu, ← hjv, ← hlo i (Nat.le_of_lt hi)]
+  constructor
+  · intro hd
+    obtain ⟨b, hb, hqb, hdb⟩ := desc_unrelabel (q := fun k => (treePostorder A.n (coletree A.m A.n (permView A p).col)).getD k 0)
+      hheap hroot (fun a ha b hb e => post_inj hheap a b ha hb e) hrel hd i (Nat.le_of_lt hi) rfl
+    have : b = j := post_inj hheap b j hb (Nat.le_of_lt hj) hqb
+    exact this ▸ hdb
+  · intro hd
+    exact desc_relabel (q := fun k => (treePostorder A.n (coletree A.m A.n (permView A p).col)).getD k 0) hlt hrel hd
+
+
 /-! ### hypotheses are satisfiable / the statements are not vacuous -/
 
 /-- a 3x3 arrow pattern: columns {0,1,2}, {0,1}, {0,2} -/
